@@ -87,7 +87,7 @@ func init() {
 			assumptions: []string{"cost function XZCost with 9 bits per literal as stated by the property", "admissible sources are the bytes at absolute positions >= sum of Shrink results"},
 			mandatory:   []string{"blocks_checked_against_optimum", "blocks_checked_after_shrink", "optimal_blocks_with_matches", "shrink_discarding"}},
 		types: []string{"OSAP"}, quickN: 12000, thorMul: 40, corpusN: 1500, large: false,
-		weights: HWeights{Write: 18, ReadFrom: 6, Parse: 40, ParseNTL: 6, ParseNil: 4, Shrink: 12, Reset: 1, ResetData: 2},
+		weights: HWeights{Write: 18, ReadFrom: 6, Parse: 40, ParseNTL: 6, ParseNil: 4, Shrink: 12, Reset: 1, ResetData: 2, WParse: 6},
 		tweak: func(r *rand.Rand, pc *PCase, kind string) {
 			// many alternative parses: small alphabets and repeats
 			if r.Intn(3) > 0 {
@@ -182,7 +182,7 @@ func init() {
 			assumptions: []string{"the block end used for clipping is parse position + min(BlockSize, unparsed), also for NoTrailingLiterals blocks"},
 			mandatory:   []string{"gsap_blocks_checked", "gsap_blocks_checked_after_rebuild", "matches_checked", "literal_positions_checked", "blocks_ntl", "resets_ok"}},
 		types: []string{"GSAP"}, quickN: 16000, thorMul: 40, corpusN: 2000, large: false,
-		weights: HWeights{Write: 18, ReadFrom: 6, Parse: 34, ParseNTL: 16, ParseNil: 0, Shrink: 12, Reset: 2, ResetData: 3},
+		weights: HWeights{Write: 18, ReadFrom: 6, Parse: 34, ParseNTL: 16, ParseNil: 0, Shrink: 12, Reset: 2, ResetData: 3, WParse: 6},
 		opts:    func(typ string) gen.Opts { return gen.Opts{} },
 		tweak: func(r *rand.Rand, pc *PCase, kind string) {
 			if r.Intn(2) == 0 {
